@@ -29,6 +29,24 @@ Definition keys5 : list string := [K_REQ; K_RESP; K_RS; K_ALG; K_SIG].
 Definition dirtyp (t : string) : Prop := t = K_REQ \/ t = K_RESP.
 Definition alg_allowed (al : option string) : Prop := exists a, al = Some a /\ In a spec_allowed.
 
+(* ---- long-lived receivers (strengthening round 5).  "Verifies under that entity's certificate ... and under no
+   other key" speaks about the certificate the entity has NOW: for a receiver that lives through metadata reloads
+   this is what the last reload that succeeded published (or, before any, what it was configured with) - whatever
+   was received, looked up or sent in between.  `before`: the steps so far, oldest first. *)
+Fixpoint last_good_reload {cert : Type} (r : nat) (newest_first : list (lstep cert)) : option (list (list (certarg cert))) :=
+  match newest_first with
+  | [] => None
+  | LReload r' true pub :: older => if Nat.eqb r' r then Some pub else last_good_reload r older
+  | _ :: older => last_good_reload r older
+  end.
+
+Definition published_now {key cert : Type} (st0 : list (receiver key cert)) (before : list (lstep cert)) (r : nat)
+  : option (list (list (certarg cert))) :=
+  match last_good_reload r (rev before) with
+  | Some pub => Some pub
+  | None => option_map r_pub (nth_error st0 r)
+  end.
+
 Section Spec.
   Context {key cert : Type}.
   Variable cert_of : key -> cert.
